@@ -200,6 +200,9 @@ func (c *ClusterInfo) GetLookupdProducers(lookupdHTTPAddrs []string) (Producers,
 			lock.Lock()
 			defer lock.Unlock()
 			for _, producer := range resp.Producers {
+				if producer == nil {
+					continue
+				}
 				key := producer.TCPAddress()
 				p, ok := producersByAddr[key]
 				if !ok {
@@ -267,6 +270,9 @@ func (c *ClusterInfo) GetLookupdTopicProducers(topic string, lookupdHTTPAddrs []
 			lock.Lock()
 			defer lock.Unlock()
 			for _, p := range resp.Producers {
+				if p == nil {
+					continue
+				}
 				for _, pp := range producers {
 					if p.HTTPAddress() == pp.HTTPAddress() {
 						goto skip
@@ -587,6 +593,9 @@ func (c *ClusterInfo) GetNSQDStats(producers Producers,
 			lock.Lock()
 			defer lock.Unlock()
 			for _, topic := range resp.Topics {
+				if topic == nil {
+					continue
+				}
 				topic.Node = addr
 				topic.Hostname = p.Hostname
 				topic.MemoryDepth = topic.Depth - topic.BackendDepth
@@ -597,6 +606,9 @@ func (c *ClusterInfo) GetNSQDStats(producers Producers,
 				topicStatsList = append(topicStatsList, topic)
 
 				for _, channel := range topic.Channels {
+					if channel == nil {
+						continue
+					}
 					channel.Node = addr
 					channel.Hostname = p.Hostname
 					channel.TopicName = topic.TopicName
@@ -616,6 +628,9 @@ func (c *ClusterInfo) GetNSQDStats(producers Producers,
 						channelStatsMap[key] = channelStats
 					}
 					for _, c := range channel.Clients {
+						if c == nil {
+							continue
+						}
 						c.Node = addr
 						c.NodeTopologyRegion = p.TopologyRegion
 						c.NodeTopologyZone = p.TopologyZone
